@@ -368,7 +368,7 @@ def run_case(case, tmpdir, res):
             loaded = MazeDataset.read(path) if transport == "file" else MazeDataset.load(ser)
         except BaseException as e:
             rsite = "MazeDataset.read" if transport == "file" else "MazeDataset.load"
-            res.fail(f"C05|{rsite}|{chosen}|{mode}|raises|{type(e).__name__}", f"{what}: loading raised {type(e).__name__}: {str(e)[:200]}", rd)
+            res.fail(f"C05|{rsite}|{chosen}|raises|{type(e).__name__}", f"{what}: loading raised {type(e).__name__}: {str(e)[:200]}", rd)
             return
     finally:
         MD.set_serialize_minimal_threshold(old_thr)
